@@ -374,11 +374,16 @@ func main() {
 			for _, r := range roles(th) {
 				hs = append(hs, harness(r))
 			}
+			for _, r := range concRoles(th) {
+				hs = append(hs, concHarness(r))
+			}
 		}
 		vrt.WorkerMain(hs)
 		run := evid.New("C18", "model_checking")
-		run.Rule = "every timeline up to depth d over {leecher requests a piece and is served | a piece is received from a seeder, advance the clock by 6 min, preemption tick, manual removal of an in-progress download} with idle limits of 10 min, executed on the real scheduler/dispatcher/agent storage in virtual time (testing/synctest; pending events are applied in canonical order after every action) and compared with a reference timeline model (last real activity, completion, presence). state = timeline prefix; transitions = actions executed."
-		run.Assume("one remote peer through a fake message link; announce client disabled; the order of pending events is not varied here (C17 does that)")
+		run.Rule = "sequential part: every timeline up to depth d over {leecher requests a piece and is served | a piece is received from a seeder, advance the clock by 6 min, preemption tick, manual removal of an in-progress download} with idle limits of 10 min, executed on the real scheduler/dispatcher/agent storage in virtual time (testing/synctest; pending events are applied in canonical order after every action) and compared with a reference timeline model (last real activity, completion, presence). " +
+			"concurrent part: P remote peers on one torrent, every timeline up to depth d over {peer p (none in flight) delivers a good | corrupt payload of piece k whose storage write runs to completion | is suspended before entering the agent storage | is suspended inside the storage write with the piece marked dirty; a suspended write continues; advance 6 min; tick} for a leeching torrent, and over {peer p requests piece k: the payload is queued in its conn; the conn's write loop consumes and closes a queued payload; advance 6 min; tick} for a seeding torrent; the real storage decides which writes are accepted (first complete write of a piece) and which rejected (duplicate of a complete piece, conflict with a write in progress, bad piece sum). After every step: last write/read time >= time of the last accepted write / last consumed payload, a tick drops the torrent only if that time is an idle limit ago and must drop it after twice the limit, a drop deletes the partial file / keeps the cached blob. state = timeline prefix; transitions = actions executed."
+		run.Assume("remote peers through fake message links (one in the sequential part, 2-3 in the concurrent part); announce client disabled; the order of pending events is not varied here (C17 does that)")
+		run.Assume("concurrent part: one operation in flight per peer (the dispatcher's feed goroutine of a peer is sequential); operations are atomic between the suspension points at the storage / conn boundary; peers and pieces are interchangeable (peer i+1 / piece k+1 only after peer i / piece k); the last piece is never delivered, so the leeching torrent stays in progress; piece-request resend timer configured out of the horizon")
 		run.Assume("liveness is only required with margin: no activity for more than twice the idle limit => dropped by the next tick")
 		for _, r := range roles(run.Thorough()) {
 			h := harness(r)
@@ -392,6 +397,49 @@ func main() {
 			run.States += int64(res.Executions)
 			run.Transitions += int64(res.Executions * r.depth)
 			run.Traces += int64(res.Executions)
+		}
+		// concurrent part: overlapping piece writes / reads of several peers on one torrent
+		fpConc := func(name string) func(v vrt.Violation) string {
+			return func(v vrt.Violation) string {
+				m := strings.SplitN(v.Msg, ";", 2)[0]
+				if i := strings.Index(m, " ("); i > 0 {
+					m = m[:i]
+				}
+				return name + ": " + m
+			}
+		}
+		for _, r := range concRoles(run.Thorough()) {
+			h := concHarness(r)
+			res := rep.VRT(run, h, 99, evid.Workers(), 700, fpConc(r.name))
+			run.States += int64(res.Executions)
+			run.Traces += int64(res.Executions)
+			overl, rejAfter, dropped := 0, 0, 0
+			for k, n := range res.Outcomes {
+				var st int
+				if i := strings.Index(k, " steps="); i >= 0 {
+					fmt.Sscanf(k[i:], " steps=%d", &st)
+				}
+				run.Transitions += int64(n * st)
+				if !strings.Contains(k, " ovl=0 ") {
+					overl += n
+				}
+				if !strings.HasSuffix(k, "rejafter=0") {
+					rejAfter += n
+				}
+				if strings.Contains(k, " present=false ") {
+					dropped += n
+				}
+			}
+			run.Set("vacuity:"+h.Name, map[string]interface{}{
+				"timelines_with_overlapping_operations":                  overl,
+				"timelines_where_a_rejected_write_spans_an_accepted_one": rejAfter,
+				"timelines_in_which_a_tick_dropped_the_torrent":          dropped,
+			})
+			// only the harness-driven counter is a hard vacuity condition: whether a
+			// write is rejected or a tick drops the torrent is the implementation's answer
+			if overl == 0 {
+				run.Fatal(fmt.Errorf("%s: vacuous exploration: no timeline had two operations of different peers in flight together", r.name))
+			}
 		}
 		run.Finish()
 	})
